@@ -155,9 +155,15 @@ func (g gen) size(min, max int) int {
 	return n
 }
 
-func (g gen) u8() int  { return []int{0, 1, 2, 127, 128, 255, g.r.Intn(256), g.r.Intn(256)}[g.r.Intn(8)] }
-func (g gen) u16() int { return []int{0, 1, 255, 256, 32767, 32768, 65535, g.r.Intn(65536), g.r.Intn(65536)}[g.r.Intn(9)] }
-func (g gen) u15() int { return []int{0, 1, 14, 127, 128, 142, 255, 256, 16383, 16385, 32766, 32767, g.r.Intn(32768)}[g.r.Intn(13)] }
+func (g gen) u8() int {
+	return []int{0, 1, 2, 127, 128, 255, g.r.Intn(256), g.r.Intn(256)}[g.r.Intn(8)]
+}
+func (g gen) u16() int {
+	return []int{0, 1, 255, 256, 32767, 32768, 65535, g.r.Intn(65536), g.r.Intn(65536)}[g.r.Intn(9)]
+}
+func (g gen) u15() int {
+	return []int{0, 1, 14, 127, 128, 142, 255, 256, 16383, 16385, 32766, 32767, g.r.Intn(32768)}[g.r.Intn(13)]
+}
 
 func (g gen) transform() J {
 	tt := 1 + g.r.Intn(5)
